@@ -78,6 +78,8 @@ pub struct IState {
 	/// that does both on one path implements neither reading.
 	pub took_alt: u8,
 	pub took_doc: u8,
+	/// largest price seen on this path (DESIGN 4.2, amendment 3: floor of the radius)
+	pub mag: f64,
 }
 
 impl IndSys {
@@ -122,6 +124,10 @@ impl IndSys {
 	}
 }
 
+pub fn price_mag(c: &Candle) -> f64 {
+	[c.open, c.high, c.low, c.close].iter().map(|x| (*x as f64).abs()).fold(0.0, f64::max)
+}
+
 pub fn act_strength(a: &Action) -> Option<i32> {
 	match a {
 		Action::None => None,
@@ -144,7 +150,7 @@ impl System for IndSys {
 				let Ok(Ok(imp)) = catch(|| c.init(c0)) else { continue };
 				let Some(rf) = refmodel::ind::make(c.const_name(), &rcfg, &rc(c0)) else { continue };
 				let alt = refmodel::ind::make_alt(c.const_name(), &rcfg, &rc(c0));
-				v.push((IState { imp, rf, alt, cfg: i, prev: *c0, trend: 0, took_alt: 0, took_doc: 0 }, format!("{} {} c0={}", c.const_name(), c.to_json().unwrap_or_default(), In::C(*c0).show())));
+				v.push((IState { imp, rf, alt, cfg: i, prev: *c0, trend: 0, took_alt: 0, took_doc: 0, mag: price_mag(c0) }, format!("{} {} c0={}", c.const_name(), c.to_json().unwrap_or_default(), In::C(*c0).show())));
 			}
 		}
 		v
@@ -213,6 +219,11 @@ impl System for IndSys {
 		let name = self.cfgs[s.cfg].const_name();
 		let mut n = s.clone();
 		n.prev = c;
+		n.mag = n.mag.max(price_mag(&c));
+		// floor of every radius: the rounding of a few operations at unit scale (at the scale of the prices
+		// if that is smaller). Equivalent formulations of a normalised quotient - pos / (pos + neg) versus
+		// the textbook 1 - 1 / (1 + pos / neg) - differ by that much although the quotient itself is tiny.
+		let floor = 16.0 * refmodel::eps() * n.mag.min(1.0);
 		n.trend = if *a == self.alphabet.len() {
 			1
 		} else if *a == self.alphabet.len() + 1 {
@@ -255,7 +266,7 @@ impl System for IndSys {
 				for (i, (q, o)) in want_v.iter().zip(&own).enumerate() {
 					if let Some(aq) = alt_v.as_ref().and_then(|a| a.get(i)) {
 						if q.is_defined() && aq.is_defined() && i < 8 {
-							let (d, a) = (q.contains(*o), aq.contains(*o));
+							let (d, a) = (q.widen(floor).contains(*o), aq.widen(floor).contains(*o));
 							if a && !d {
 								n.took_alt |= 1 << i;
 							}
@@ -277,11 +288,11 @@ impl System for IndSys {
 						self.stats[s.cfg][i.min(self.stats[s.cfg].len() - 1)].exempt.fetch_add(1, Ordering::Relaxed);
 						continue;
 					}
-					if !q.contains(*o) {
+					if !q.widen(floor).contains(*o) {
 						let class = n.rf.class();
 						let class = if class.is_empty() { String::new() } else { format!("/{class}") };
 						// does the implementation-following variant explain it? then it is the recorded discrepancy
-						let alt_ok = alt_v.as_ref().map(|a| a.get(i).map(|aq| !aq.is_defined() || aq.contains(*o)).unwrap_or(false)).unwrap_or(false);
+						let alt_ok = alt_v.as_ref().map(|a| a.get(i).map(|aq| !aq.is_defined() || aq.widen(floor).contains(*o)).unwrap_or(false)).unwrap_or(false);
 						let which = if alt_ok { "differs-from-documented-formula/equals-implementation-reading" } else if alt_v.is_some() { "differs-from-formula/and-from-implementation-reading" } else { "differs-from-formula" };
 						let f = failure(format!("{name}/value#{i}/{which}{class}"), || format!("value #{i} = {o:?}, formula {:?} ± {:.3e} (off by {:.3e})", q.v, q.r, (o - q.v).abs()));
 						// the reference does not consume the implementation's values: exploration continues
